@@ -12,13 +12,13 @@ pub static DEF: CheckDef = CheckDef {
     id: "C12",
     run,
     replay,
-    rule: "for each supported cartridge type (0x00, 0x01-0x03, 0x11-0x13) x ROM size code (0-8, 0x52-0x54) x RAM size code (0-5): (a) the complete product of controller register values (MBC1: 32 x 4 x 2, MBC3: 128 x 16, each value written at several addresses of its register's range), (b) proptest histories of up to 40 (address < 0x8000, value) writes biased to the register-range edges and to the values 0, 1, 0x1F, 0x20, 0x21, 0x3F, 0x40, 0x60, 0x7F, 0x80, 0xFF. After every write the bank visible at 0x0000, at 0x4000-0x7FFF (ROM banks carry their index; through data reads and through the instruction-fetch view) and at 0xA000-0xBFFF (RAM banks carry theirs) is compared with the reference controller model. (c) executed view: on six cartridges, proptest histories of up to 29 register writes; after every write the CPU of the interpreter build and of the jit build executes LD BC,nn at 0x3FFE and LD B,n at 0x3FFF, whose last operand byte is the first byte of the bank mapped at 0x4000 (its stamp) - the same two addresses again and again, the translation cache staying warm across the bank switches - and B must be the stamp of the bank the protocol makes visible. Non-trivial = history that selects value 0, a multiple of 0x20, mode 1 or a bank beyond the ROM size; distinct by hash of (configuration, history).",
+    rule: "for each supported cartridge type (0x00, 0x01-0x03, 0x11-0x13) x ROM size code (0-8, 0x52-0x54) x RAM size code (0-5): (a) the complete product of controller register values (MBC1: 32 x 4 x 2, MBC3: 128 x 16, each value written at several addresses of its register's range), (b) proptest histories of up to 40 (address < 0x8000, value) writes biased to the register-range edges and to the values 0, 1, 0x1F, 0x20, 0x21, 0x3F, 0x40, 0x60, 0x7F, 0x80, 0xFF. After every write the bank visible at 0x0000, at 0x4000-0x7FFF (ROM banks carry their index; through data reads and through the instruction-fetch view) and at 0xA000-0xBFFF (RAM banks carry theirs) is compared with the reference controller model. (c) executed view: on six cartridges, proptest histories of up to 29 register writes; after every write the CPU of the interpreter build and of the jit build executes LD BC,nn at 0x3FFE and LD B,n at 0x3FFF, whose last operand byte is the first byte of the bank mapped at 0x4000 (its stamp) - the same two addresses again and again, the translation cache staying warm across the bank switches - and B must be the stamp of the bank the protocol makes visible; and across a restart of the translation area (C03's restart probe: bank 1 selected and executed at the address whose bank-2 block made the area restart) the code that runs must be bank 1's. Non-trivial = history that selects value 0, a multiple of 0x20, mode 1 or a bank beyond the ROM size; distinct by hash of (configuration, history).",
     assumptions: &[
         "models::mbc (register protocol from the controller documentation); set-valued where documentation differs: MBC1 mode 1 may or may not apply the upper bits at 0x4000-0x7FFF",
         "RAM enable is not asserted; for 2 KiB RAM the window must show the same 2 KiB four times; RAM bank contents are asserted for RAM sizes of at least one 8 KiB bank; MBC3 RTC register selections (0x4000-0x5FFF value >= 4) suspend the RAM-bank assertion",
         "for 72/80/96-bank ROMs only selections below the bank count are asserted",
     ],
-    required_classes: &["value-zero", "multiple-of-0x20", "mode-1", "beyond-size", "mbc3", "rom-only", "executed-view", "executed-view-warm-cache-across-bank-switches"],
+    required_classes: &["value-zero", "multiple-of-0x20", "mode-1", "beyond-size", "mbc3", "rom-only", "executed-view", "executed-view-warm-cache-across-bank-switches", "executed-view-after-restart"],
     exhaustive: false,
 };
 
@@ -276,6 +276,40 @@ fn run(rec: &mut Rec) {
         }
     }
     exec_view_layer(rec);
+    // executed view across a restart of the translation area (C03's restart probe): bank 1
+    // selected and executed at the address whose bank-2 block made the area restart
+    {
+        let step = rec.ctx.tier.pick(0x40000usize, 0x8000);
+        let mut k = 0usize;
+        let mut target = 0x480000usize;
+        while target < 0x7f0000 {
+            if rec.ctx.mine(k) && !rec.too_many() {
+                exec_view_after_restart(rec, target);
+            }
+            k += 1;
+            target += step;
+        }
+    }
+}
+
+fn exec_view_after_restart(rec: &mut Rec, target: usize) {
+    let case = json!({"kind": "mbc-exec-view-after-restart", "target": target});
+    rec.current(&case.to_string());
+    rec.eval(1);
+    rec.class("executed-view-after-restart", 1);
+    if let Ok(p) = crate::checks::c03::restart_probe(target) {
+        let mut pairs = vec![(0x4000u16, &p.largest)];
+        if let Some(a) = &p.after_restart {
+            pairs.push((p.last_filler_pc, a));
+            rec.nontrivial(fnv(case.to_string().as_bytes()));
+        }
+        for (pc, (oj, oi)) in pairs {
+            if oj.regs != oi.regs || oj.serial != oi.serial {
+                rec.violation("exec-view-after-restart", case.clone(), format!("bank 1 selected (register 0x2000 <- 1) and executed at {:#06x} with {} bytes of the translation area in use: the jit build ran other code than the bank-1 code the interpreter build ran (jit {:?} / sent {:02x?}, interpreter {:?} / sent {:02x?})", pc, p.level, oj.regs, oj.serial, oi.regs, oi.serial));
+                break;
+            }
+        }
+    }
 }
 
 // ---------------------------------------------------------------------------
@@ -373,6 +407,10 @@ fn exec_view_layer(rec: &mut Rec) {
 }
 
 fn replay(case: &Value, rec: &mut Rec) {
+    if case.get("kind").and_then(|k| k.as_str()) == Some("mbc-exec-view-after-restart") {
+        exec_view_after_restart(rec, (case.get("target").and_then(|v| v.as_u64()).unwrap_or(0x500000) as usize).min(0x7f0000));
+        return;
+    }
     if case.get("kind").and_then(|k| k.as_str()) == Some("mbc-exec-view") {
         let g = |k: &str| case.get(k).and_then(|v| v.as_u64()).unwrap_or(0) as u8;
         let cfg = (g("type"), g("rom_code"), g("ram_code"));
